@@ -388,6 +388,51 @@ func fixedPrograms() []*Prog {
 		p.Calls = callsOf(p)
 		out = append(out, p)
 	}
+	{ // literal returns inside every statement kind that can hold one, plain and under a label, in source order
+		// (seeded change C14-c: a statement walker that does not enter *ast.LabeledStmt)
+		p := baseProg(false)
+		k := 0
+		lits := func() *Stmt { // distinct values per return statement: a lost or reordered return shows
+			k++
+			return ret(lit(fmt.Sprintf("%d", k), Ty{K: "untyped"}), lit(fmt.Sprintf(`"s%d"`, k), Ty{K: "untyped"}))
+		}
+		grp := func(head string, label bool, blocks ...[]*Stmt) *Stmt {
+			return &Stmt{K: "group", Head: head, Label: label, Blocks: blocks}
+		}
+		res2 := []Res{{Ty: tAny}, {Ty: tAny}}
+		for _, label := range []bool{true, false} {
+			sfx := map[bool]string{true: "L", false: "U"}[label]
+			tableFn(p, "Find"+sfx, pkgA, 0, res2, []*Stmt{grp("for", label, []*Stmt{grp("if", false, []*Stmt{lits()})}), lits()})
+			tableFn(p, "Range"+sfx, pkgA, 0, res2, []*Stmt{grp("range", label, []*Stmt{lits()}), lits()})
+			tableFn(p, "Pick"+sfx, pkgA, 0, res2, []*Stmt{grp("select", label, []*Stmt{lits()}, []*Stmt{lits()}, []*Stmt{lits()}), lits()})
+			tableFn(p, "Sw"+sfx, pkgA, 0, res2, []*Stmt{grp("switch", label, []*Stmt{lits()}, []*Stmt{lits()}), lits()})
+			tableFn(p, "TySw"+sfx, pkgA, 0, res2, []*Stmt{grp("typeswitch", label, []*Stmt{lits()}, []*Stmt{lits()}, []*Stmt{lits()}), lits()})
+			tableFn(p, "Blk"+sfx, pkgA, 0, res2, []*Stmt{grp("block", label, []*Stmt{lits()}), lits()})
+			tableFn(p, "If"+sfx, pkgA, 0, res2, []*Stmt{grp("ifelse", label, []*Stmt{lits()}, []*Stmt{lits()}), lits()})
+			tableFn(p, "Chain"+sfx, pkgA, 0, res2, []*Stmt{grp("elseif", label, []*Stmt{lits()}, []*Stmt{lits()}, []*Stmt{lits()}), lits()})
+			// a label inside a label; a labeled statement that holds the function's only values besides the last return
+			tableFn(p, "Nest"+sfx, pkgA, 0, res2, []*Stmt{
+				grp("for", label, []*Stmt{lits(), grp("switch", true, []*Stmt{grp("block", label, []*Stmt{lits()})}, []*Stmt{lits()})}),
+				grp("select", false, []*Stmt{grp("range", label, []*Stmt{lits()})}),
+				lits()})
+		}
+		p.Calls = callsOf(p)
+		out = append(out, p)
+	}
+	{ // a labeled retry loop around named results: the assignment and the bare return are under the label
+		p := baseProg(false)
+		p.NObj += 2
+		r0, r1 := p.NObj-1, p.NObj
+		tableFn(p, "Retry", pkgA, 0, []Res{{Ty: tAny, Name: "r0", Obj: r0}, {Ty: tErr, Name: "r1", Obj: r1}}, []*Stmt{
+			{K: "group", Head: "for", Label: true, Blocks: [][]*Stmt{{
+				{K: "assign", Tok: "=", Lhs: []Lhs{{K: "ident", Src: "r0", Obj: r0, Ty: tAny}}, Rhs: []*Expr{lit(`"again"`, Ty{K: "untyped"})}},
+				{K: "group", Head: "if", Blocks: [][]*Stmt{{{K: "return", Bare: true}}}},
+			}}},
+			ret(lit("2.5", Ty{K: "untyped"}), nilExpr()),
+		})
+		p.Calls = callsOf(p)
+		out = append(out, p)
+	}
 	{ // mutual recursion through (any, error) with named results and a bare return
 		p := baseProg(false)
 		a := len(p.Funcs)
